@@ -163,15 +163,15 @@ func (fs *FS) RemoveAll(name string) error {
 
 // Rename implements hackpadfs.RenameFS
 func (fs *FS) Rename(oldname, newname string) error {
-	oldname, err := fs.rootedPath("", oldname)
+	oldOSPath, err := fs.rootedPath("", oldname)
 	if err != nil {
 		return &hackpadfs.LinkError{Op: "rename", Old: oldname, New: newname, Err: err.Err}
 	}
-	newname, err = fs.rootedPath("", newname)
+	newOSPath, err := fs.rootedPath("", newname)
 	if err != nil {
 		return &hackpadfs.LinkError{Op: "rename", Old: oldname, New: newname, Err: err.Err}
 	}
-	return fs.wrapErr(os.Rename(oldname, newname))
+	return fs.wrapErr(os.Rename(oldOSPath, newOSPath))
 }
 
 // Stat implements hackpadfs.StatFS
@@ -253,13 +253,13 @@ func (fs *FS) WriteFile(name string, data []byte, perm hackpadfs.FileMode) error
 
 // Symlink implements hackpadfs.SymlinkFS
 func (fs *FS) Symlink(oldname, newname string) error {
-	oldname, pathErr := fs.rootedPath("symlink", oldname)
+	oldOSPath, pathErr := fs.rootedPath("symlink", oldname)
 	if pathErr != nil {
 		return &hackpadfs.LinkError{Op: "symlink", Old: oldname, New: newname, Err: pathErr.Err}
 	}
-	newname, pathErr = fs.rootedPath("symlink", newname)
+	newOSPath, pathErr := fs.rootedPath("symlink", newname)
 	if pathErr != nil {
 		return &hackpadfs.LinkError{Op: "symlink", Old: oldname, New: newname, Err: pathErr.Err}
 	}
-	return fs.wrapErr(os.Symlink(oldname, newname))
+	return fs.wrapErr(os.Symlink(oldOSPath, newOSPath))
 }
